@@ -5,6 +5,9 @@ CONSTANTS
   Atomic = TRUE
   MaxTakes = 5
   MaxAdv = 3
+  Align = FALSE
+  IPhases = {0}
+  FreezeWindow = FALSE
   MaxFaults = 2
 INVARIANTS PTypeOK PCanonical Conforms CounterIsTheCount
 CHECK_DEADLOCK FALSE
